@@ -4,7 +4,12 @@ Thr = 171
 Mutant = 0
 Lens = {1, 20, 60}
 ReadSizes = {2, 45, 100}
-MaxPuts = 7
+MaxPuts = 6
 INIT Init
 NEXT Next
+INVARIANT I_Ledger
+INVARIANT I_NoViol
+INVARIANT I_Contig
+INVARIANT I_ErrLast
+INVARIANT I_NoStall
 CHECK_DEADLOCK FALSE
